@@ -80,7 +80,7 @@ def run(chk, facts, tier):
                 size_ok = sv == req['size'] or (sv is None and sname is not None and sname.endswith('_size'))
                 if sv is None and sname is not None:
                     # symbolic constant in the pattern: resolve through class statics / local constants
-                    init = local_init(fn, sname)
+                    init = local_init(fn, sname, optional=True)
                     if init is not None and init.v is not None:
                         size_ok = init.v == req['size']
                     else:
